@@ -126,7 +126,7 @@ package priority
 //@   [*] dsc != nil && dsc.actual != nil && dsc.tactic != nil && dsc.inputs != nil
 //@   [*] dsc.actual != dsc.tactic && dsc.actual != dsc.strategic && dsc.tactic != dsc.strategic
 //@   [*] dsc.opts.Divider != nil && dsc.opts.HandlersQuantity == gH && gH >= 1
-//@   [*] strictlyDesc(dsc.priorities) && allIn(dsc.priorities, gPset)
+//@   [* C15 C17] priority-list-sorted-distinct-configured: strictlyDesc(dsc.priorities) && allIn(dsc.priorities, gPset)
 //@   [*] forall k :: in(gPset, k) <==> dom(dsc.inputs, k)
 //@   [*] (dsc.priorities.arr == 0 ==> len(dsc.priorities) == 0) && (dsc.uncrowded.arr == 0 || dsc.uncrowded.arr != dsc.priorities.arr) && (dsc.useful.arr == 0 || dsc.useful.arr != dsc.priorities.arr)
 //@   [*] allocated(dsc.actual) && allocated(dsc.tactic) && (dsc.strategic == nil || allocated(dsc.strategic))
@@ -499,8 +499,8 @@ package priority
 
 // The priority list holds distinct keys of the inputs table (not necessarily sorted).
 //@ pred PLIST(dsc)
-//@   [*] forall a, b :: 0 <= a && a < b && b < len(dsc.priorities) ==> dsc.priorities[a] != dsc.priorities[b]
-//@   [*] forall a :: 0 <= a && a < len(dsc.priorities) ==> dom(dsc.inputs, dsc.priorities[a])
+//@   [* C15 C17] priority-list-distinct: forall a, b :: 0 <= a && a < b && b < len(dsc.priorities) ==> dsc.priorities[a] != dsc.priorities[b]
+//@   [* C15 C17] priority-list-configured: forall a :: 0 <= a && a < len(dsc.priorities) ==> dom(dsc.inputs, dsc.priorities[a])
 
 //@ func (*Discipline).addPriority
 //@   requires [*] WFS(dsc)
